@@ -2,7 +2,7 @@
 import { Reporter, TIER, valueKind, sha } from "./common.mjs";
 import { familyPrograms, forEachCompiledParser, bFamily } from "./cases.mjs";
 import { render, skeleton } from "./spec.mjs";
-import { build, toSrc, universeFor } from "./universe.mjs";
+import { build, toSrc, universeFor, CYCLIC } from "./universe.mjs";
 import { Prog } from "./ref.mjs";
 
 const MISSING = Symbol("missing");
@@ -11,7 +11,21 @@ const safeStringify = (v) => {
     const out = JSON.stringify(v, (_k, x) => (typeof x === "bigint" ? `${x}n` : x));
     return out === undefined ? String(v) : out;
   } catch {
-    return String(v);
+    // cyclic key / item: every object once, a repeated one as "[Circular]" (the text the runtime puts into the path)
+    try {
+      const seen = new WeakSet();
+      const out = JSON.stringify(v, (_k, x) => {
+        const w = typeof x === "bigint" ? `${x}n` : x;
+        if (typeof w === "object" && w !== null) {
+          if (seen.has(w)) return "[Circular]";
+          seen.add(w);
+        }
+        return w;
+      });
+      return out === undefined ? String(v) : out;
+    } catch {
+      return String(v);
+    }
   }
 };
 
@@ -156,7 +170,7 @@ export async function run() {
     stats.parsers++;
     const skel = skeleton(spec0, refProg);
     const typeText = render(spec0);
-    for (const vx of U)
+    for (const vx of [...U, ...CYCLIC])
       for (const [opts, oname] of OPTS) {
         const n = checkRejected({ rep, stats, parser, parserName: name, vx, typeText, skel, program: text, opts, oname, printErrors: client.err.printErrors });
         if (n) shapes.add(skel + ":" + n + ":" + oname);
@@ -167,7 +181,7 @@ export async function run() {
   const emptyProg = new Prog([]);
   for (const { parser, spec, src } of bf.items) {
     const U = universeFor(emptyProg, spec, { mutantCap: 100 });
-    for (const vx of U) for (const [opts, oname] of OPTS) checkRejected({ rep, stats, parser, parserName: parser.name, vx, typeText: src, skel: "b:" + skeleton(spec), program: "// " + src, opts, oname, printErrors: bf.client.err.printErrors });
+    for (const vx of [...U, ...CYCLIC]) for (const [opts, oname] of OPTS) checkRejected({ rep, stats, parser, parserName: parser.name, vx, typeText: src, skel: "b:" + skeleton(spec), program: "// " + src, opts, oname, printErrors: bf.client.err.printErrors });
   }
   if (samples.length === 0) samples.push({ note: "sample slots not hit" });
   if (stats.unionErrors < 100) rep.machineryError("vacuous: fewer than 100 union errors seen");
